@@ -40,6 +40,14 @@ type C17Case struct {
 	// Fault: the K-th write on the connection takes only Take bytes and fails (a write deadline that expired, a
 	// transient error); the connection works again afterwards
 	Fault *C17Fault `json:"fault,omitempty"`
+	// Multi: several transports (slots) of the same buffer sizes live side by side, are closed (also twice) and replaced
+	Multi []C17MultiOp `json:"multi,omitempty"`
+}
+
+type C17MultiOp struct {
+	Slot int    `json:"slot"`
+	Op   string `json:"op"` // write | writev | flush | close | reopen
+	N    int    `json:"n,omitempty"`
 }
 
 type C17Fault struct {
@@ -162,10 +170,113 @@ func genC17(t *rapid.T) C17Case {
 	c.Drain = rapid.SampledFrom([]int{1, 3, 16, 64, 5000}).Draw(t, "drain")
 	c.EOFData = rapid.IntRange(0, 3).Draw(t, "eofdata") == 1
 	c.Duplex = rapid.IntRange(0, 5).Draw(t, "duplex") == 2
+	if rapid.IntRange(0, 9).Draw(t, "multi") == 0 {
+		c.Duplex = false
+		c.Multi = rapid.SliceOfN(rapid.Custom(func(t *rapid.T) C17MultiOp {
+			return C17MultiOp{Slot: rapid.IntRange(0, 2).Draw(t, "slot"),
+				Op: rapid.SampledFrom([]string{"write", "write", "writev", "flush", "flush", "close", "close", "reopen"}).Draw(t, "mop"),
+				N:  rapid.IntRange(0, 2*w+3).Draw(t, "mn")}
+		}), 4, 30).Draw(t, "multiops")
+		return c
+	}
 	if !c.Duplex && rapid.IntRange(0, 3).Draw(t, "fault") == 0 {
 		c.Fault = &C17Fault{K: rapid.IntRange(1, 6).Draw(t, "fk"), Take: rapid.IntRange(0, w+3).Draw(t, "ftake"), Kind: rapid.SampledFrom([]string{"timeout", "timeout", "plain"}).Draw(t, "fkind")}
 	}
 	return c
+}
+
+// runC17Multi: three slots, each holding a transport over its own connection; transports are closed (also twice, as a
+// deferred Close plus an explicit one do) and replaced. Whatever one transport is told to write reaches its own peer only.
+func runC17Multi(c C17Case, variant string, cls *core.ClassSet) (out core.Outcome) {
+	type slot struct {
+		conn    *memConn
+		tr      transport.Transport
+		written []byte
+		closed  int
+	}
+	slots := make([]*slot, 3)
+	open := func(i int) {
+		conn := &memConn{}
+		slots[i] = &slot{conn: conn, tr: transport.NewTransport(conn, c.RSize, c.WSize)}
+	}
+	for i := range slots {
+		open(i)
+	}
+	seq := 0
+	mk := func(n int) []byte {
+		b := make([]byte, n)
+		for i := range b {
+			seq++
+			b[i] = byte(seq*31 + seq>>8)
+		}
+		return b
+	}
+	check := func(k int, when string) *core.Violation {
+		for i, s := range slots {
+			if !bytes.HasPrefix(s.written, s.conn.got) {
+				return core.Viol("C17/peer-bytes-not-a-prefix:"+variant, "op %d (%s): the peer of transport %d has received %d bytes that are not a prefix of the %d bytes written to that transport (first difference at %d): bytes of another transport, or lost ones", k, when, i, len(s.conn.got), len(s.written), firstDiff(s.conn.got, s.written))
+			}
+		}
+		return nil
+	}
+	doubleClose := false
+	for k, op := range c.Multi {
+		s := slots[op.Slot]
+		switch op.Op {
+		case "write":
+			if s.closed > 0 {
+				continue
+			}
+			p := mk(op.N)
+			if n, err := s.tr.Write(p); err == nil && n == len(p) {
+				s.written = append(s.written, p...)
+			} else {
+				return core.Outcome{Violation: core.Viol("C17/write-result:"+variant, "op %d: Write(%d) on an open transport returned (%d, %v)", k, len(p), n, err)}
+			}
+		case "writev":
+			if s.closed > 0 {
+				continue
+			}
+			a, b := mk(op.N/2), mk(op.N-op.N/2)
+			all := append(append([]byte{}, a...), b...)
+			if n, err := s.tr.Writev(net.Buffers{a, b}); err == nil && n == int64(len(all)) {
+				s.written = append(s.written, all...)
+			} else {
+				return core.Outcome{Violation: core.Viol("C17/writev-result:"+variant, "op %d: Writev(%d) on an open transport returned (%d, %v)", k, len(all), n, err)}
+			}
+		case "flush":
+			if s.closed > 0 {
+				continue
+			}
+			if err := s.tr.Flush(); err != nil {
+				return core.Outcome{Violation: core.Viol("C17/flush-result:"+variant, "op %d: Flush on an open transport returned %v", k, err)}
+			}
+			if !bytes.Equal(s.conn.got, s.written) {
+				return core.Outcome{Violation: core.Viol("C17/flush-incomplete:"+variant, "op %d: after Flush the peer of transport %d has %d of its %d written bytes (first difference at %d)", k, op.Slot, len(s.conn.got), len(s.written), firstDiff(s.conn.got, s.written))}
+			}
+		case "close":
+			_ = s.tr.Close()
+			s.closed++
+			if s.closed == 2 {
+				doubleClose = true
+			}
+		case "reopen":
+			if s.closed == 0 {
+				_ = s.tr.Close()
+			}
+			open(op.Slot)
+		}
+		if v := check(k, op.Op); v != nil {
+			out.Violation = v
+			return
+		}
+	}
+	cls.Add("several-transports")
+	if doubleClose {
+		cls.Add("transport-closed-twice")
+		out.NonTrivial = true
+	}
+	return
 }
 
 // runC17Fault: one write on the connection fails after taking part of its bytes. Calls may fail from then on; but
@@ -303,6 +414,9 @@ func runC17(c C17Case) (out core.Outcome) {
 		cls.Add("eof-with-data")
 	}
 	tr := transport.NewTransport(conn, c.RSize, c.WSize)
+	if len(c.Multi) > 0 {
+		return runC17Multi(c, variant, cls)
+	}
 	if c.Duplex {
 		return runC17Duplex(c, conn, tr, peer, variant, cls)
 	}
